@@ -101,6 +101,11 @@ def generate(tier, rng):
                         cases.append(dict(stream="faults", dims=ds, fault=desc, rows=[[r[0], None if r[1] is None else str(r[1])] for r in frows],
                                           layout=dict(lay, omit_single=(k % 2 == 0), value_name="value", row_perm=None, col_perm=None, csv=False),
                                           allow_missing=am, allow_extra=ae, via=via))
+                        # the same table with row labels of its own that repeat (put together from pieces): rows are rows, whatever their labels
+                        if li == 0 and via in ("from_df", "set_values_from_df"):
+                            c = dict(cases[-1])
+                            c["layout"] = dict(c["layout"], row_labels=["pairs", "same", "from1"][k % 3])
+                            cases.append(c)
         # layout-level faults
         for am in (False, True):
             for ae in (False, True):
